@@ -221,7 +221,7 @@ prop(
           "indent 0-8. Sweep: each of the 44 relationship types x 4 indents, 16 shared algorithms x {package,file}, 12 native purposes. "
           "Non-trivial = >=2 nodes, >=1 edge target and one of {date set, originator set, >=2 purposes, file node}; distinct = digest of the document's wire bytes and indent."),
     assumptions=["text outside 'JSON carries without escapes' and ids outside [A-Za-z0-9.-]+ are outside the stated domain (tools-golang reads ids/actors from raw JSON text)",
-                 "external references carry a URL (URL-less references are documented as skipped)", "declared licence list is not carried by the SPDX driver and not asserted"],
+                 "values SPDX cannot carry are left out of the comparison on both sides: references without URL, checksums / identifiers / attribution texts without content, file types outside the closed SPDX enumeration", "declared licence list is not carried by the SPDX driver and not asserted"],
     level_text=("write -> read -> compare on node (id, kind) multiset, typed-edge triple set, root set and the per-node projection onto what SPDX 2.3 can "
                 "carry (tables written from the SPDX 2.3 specification, not from protobom's), then a second pass that must change nothing."),
     level_note="trusts rapid and the harness's projection tables (harness/props/c01_test.go); goes through writer.WriteStreamWithOptions and reader.ParseStream with auto-detection",
@@ -248,7 +248,8 @@ prop(
           "{split,merged} x {node order, reversed} x {1.4,1.5}. Non-trivial = depth >=3 with the edge list not in child-first order, or a file node, "
           "or a reference with hashes; distinct = digest of document wire bytes and format."),
     assumptions=["identifiers do not start with the reserved 'protobom-' prefix", "package nodes whose first purpose maps to component type 'file' are excluded (they are files in CycloneDX)",
-                 "at most one licence per node (KF-01) and Metadata.Name empty or equal to the root's name (KF-03)"],
+                 "at most one licence per node (KF-01) and Metadata.Name empty or equal to the root's name (KF-03)",
+                 "external references: URL, comment and hashes of every reference are compared as a set, the type only when the target version can express it; hashes without content are left out; with both CPE kinds either may survive; the serial number is compared when the document has one"],
     level_text=("write -> read -> compare node set, containment-edge set, root, per-node CycloneDX-expressible attributes (tables from the CycloneDX "
                 "1.4/1.5 schemas), serial number, version, lifecycles (1.5); second pass must change nothing. Small trees are covered exhaustively."),
     level_note="trusts rapid, the harness's projection tables (harness/props/c02_test.go) and cyclonedx-go's documented down-conversion of 1.5-only reference types at 1.4 (either outcome accepted)",
@@ -331,8 +332,8 @@ prop(
     assumptions=["SPDX documents carry the mandatory documentNamespace (otherwise the document id is random by design)",
                  "SPDXRef-DOCUMENT appears only as the source of DESCRIBES (KF-04); snippets are not generated; bom-refs outside the reserved protobom- namespace"],
     level_text=("closedness (when the input's references resolve), non-empty ids, uniqueness as in the input, safe and unique generated ids, and equality of the "
-                "whole parsed document (reflection-based canonical form) across repeated parses, explicit-format parses and JSON re-encodings."),
-    level_note="trusts rapid and the harness's JSON encoder (harness/hx/jsonmodel.go); equality is judged on the canonical form of the complete Document message",
+                "parsed graph (reflection-based canonical form of the node list: nodes with every attribute, edges, roots) across repeated parses, explicit-format parses and JSON re-encodings; document-level metadata is outside the statement."),
+    level_note="trusts rapid and the harness's JSON encoder (harness/hx/jsonmodel.go); equality is judged on the canonical form of the parsed node list; a generated document with duplicate ids or unresolved references may be rejected by the parser (counted)",
     jobs=[
         {"test": "TestC05", "checks": 1200, "timeout": 400, "thorough": {"checks": 12000, "shards": 12, "timeout": 1700}},
         {"test": "TestC05Identifier", "checks": 3000, "timeout": 120, "thorough": {"checks": 50000, "shards": 2, "timeout": 600}},
@@ -356,7 +357,7 @@ prop(
           "trailing data, scalars, byte strings, tag-value look-alikes; every stream wrapped to record its offset and to inject a failing Seek at call 1..3. "
           "Non-trivial = positive case whose encoding differs from the writer's bytes / negative case that is a JSON object; distinct = digest of the input bytes."),
     assumptions=["for tag-value results only the necessary condition is asserted (an SPDXVersion tag and the version token occur in the input); the line sniffer's heuristics are not specified further",
-                 "completeness on generated inputs is asserted only for clean declarations (each declaration member once, a string)"],
+                 "completeness (declared => detected) is asserted for the writer output and its re-encodings only, as stated; for generated declarations only the necessary condition is asserted: a reported JSON format is declared by some reading of the top-level members (member names without regard to case, any occurrence of a repeated member)", "a stream whose Seek fails is outside the statement: only the absence of a panic is asserted"],
     level_text=("detection returns exactly the written format; never panics; returns format xor error; leaves the stream at offset 0 on every path; a reported JSON "
                 "format agrees with an independent decode of the top-level declaration and with the format's type/version/encoding accessors; a following "
                 "ParseStream sees the whole document."),
